@@ -248,13 +248,15 @@ Proof.
   assert (Eflag : byte_at 3 h = fl).
   { change (byte_at 3 h) with (fl mod 256). apply N.mod_small. assumption. }
   rewrite Ecmd, Eseq, Eflag.
-  destruct (N.ltb_spec 0 (lenN b)) as [Hb|Hb].
+  cbn [p_flag].
+  destruct (N.ltb_spec 0 (lenN b)) as [Hb|Hb]; cbn [orb].
   - destruct (unmarshal_marshal thr has_c p b fl
                 (mkPacket (p_cmd p) (p_seq p) fl (p_typ p0) (p_node p0) (p_refers p0) (p_body p0)))
       as [U HB]; try assumption; try reflexivity; [apply W|].
     rewrite U. unfold decoded_v1, set_body, set_flag. cbn [p_cmd p_seq p_flag p_typ p_node p_refers p_body].
     destruct (body_bytes (p_body p)); [cbn in HB; lia|reflexivity].
   - destruct (marshal_empty thr has_c p b fl M) as [-> E]; [lia|].
+    change (N.land (p_flag p) fMarshal) with (N.land (p_flag p) 3). rewrite Hc. cbn [N.eqb negb].
     unfold decoded_v1. rewrite E. reflexivity.
 Qed.
 
